@@ -137,7 +137,7 @@ class Taps(object):
             seq = rec.n_primary - 1
             wn = rec.wn
             t = float(wn.sim_time) if wn is not None else None
-            if rec.min_time is not None and t is not None and t < rec.min_time and rec.time_violation is None:
+            if rec.min_time is not None and t is not None and t <= rec.min_time and rec.time_violation is None:
                 rec.time_violation = (t, rec.min_time)
             f = rec.fault_for(seq, backup)
             opts = solver_options
